@@ -26,7 +26,7 @@ TIMEOUT = {"quick": 900, "thorough": 3600}
 SCTP_CLONES = {"quick": ['rand3', 'enum0'], "thorough": ['rand10', 'rand11', 'enum0', 'concurrent3']}
 FAULTS = ["none", "close", "reset", "dpr", "reconnect", "second_conn", "second_conn_before", "second_conn_then_close",
           "second_conn_then_dpr",
-          "dpr_then_late_dwa", "second_conn_before_then_dpr"]
+          "dpr_then_late_dwa", "second_conn_before_then_dpr", "dpr_when_idle_timer_due"]
 
 
 def shards(tier, seed):
@@ -55,7 +55,7 @@ class Case:
         peers = [{"name": f"peer{i + 1}.verif.example"} for i in range(npeers)]
         self.w = World(dict(peers=peers, apps=[{"tag": "a4", "id": 4, "behaviour": "defer",
                                                  "peers": [p["name"] for p in peers]}],
-                            node={"idle_timeout": 500 if fault == "dpr_then_late_dwa" else 10 ** 6,
+                            node={"idle_timeout": 500 if fault in ("dpr_then_late_dwa", "dpr_when_idle_timer_due") else 10 ** 6,
                                   "dwa_timeout": 10 ** 6}))
         self.h = self.w.h
         self.app = self.w.apps["a4"]
@@ -121,6 +121,17 @@ class Case:
             if d:
                 p.send(M.dwa(name, self.REALM, hbh=d[-1].h.hbh, e2e=d[-1].h.e2e))
                 self.run.cov["late_dwa_after_dpr"] = self.run.cov.get("late_dwa_after_dpr", 0) + 1
+        elif f == "dpr_when_idle_timer_due":
+            # the peer has been silent for longer than the idle time when its DPR arrives: the node's watchdog
+            # request goes out in the very loop iteration that reads the DPR.  Whatever the order, the DPR exchange
+            # has taken place
+            h.advance(501)
+            p.send(M.dpr(name, self.REALM, hbh=900, e2e=900))
+            p.dpr_exchanged = True
+            h.settle()
+            p.drain()
+            if any(x.h.code == 280 and x.is_request for x in p.frames):
+                self.run.cov["dwr_sent_with_dpr_arriving"] = self.run.cov.get("dwr_sent_with_dpr_arriving", 0) + 1
         elif f == "second_conn_then_dpr":
             # as above, but the connection that carried the requests leaves the ready state through a DPR and stays open
             self.socks[t].append(self.connect(t, gen=len(self.socks[t])))
